@@ -14,6 +14,7 @@ import CedarVerif.Driver.Ops.SchemaSyntax
 import CedarVerif.Driver.Ops.SymCC
 import CedarVerif.Driver.Ops.Level
 import CedarVerif.Driver.Ops.Tpe
+import CedarVerif.Driver.Ops.Manifest
 /-
 Line-protocol driver: one request per line on stdin, one reply per line on stdout.
 Unknown or malformed requests answer `(bad-op)`; the driver never defaults.
@@ -38,7 +39,8 @@ def handlers : List (Sexp → Option String) := [
   Ops.handleSchemaSyntax,
   Ops.SymCCOp.handleSymCC,
   Ops.Level.handleLevel,
-  Ops.Tpe.handleTpe
+  Ops.Tpe.handleTpe,
+  Ops.ManifestOps.handleManifest
 ]
 
 def handle (x : Sexp) : String :=
